@@ -107,6 +107,46 @@ Qed.
 End Proofs.
 
 
+(* ---- cost: whatever the source sends, no call of the parser is given [limit + piece] octets or more, and
+   there is at most one call per piece ---- *)
+Section Cost.
+Variable T : Type.
+Variable P : bytes -> pres T.
+Variable limit : N.
+Variable maxpiece : N.
+
+Lemma loop_calls_bounded : forall cs back,
+  Forall (fun c => lenN c <= maxpiece) cs ->
+  Forall (fun n => n < limit + maxpiece) (rfb_loop_calls T P limit back cs) /\
+  (length (rfb_loop_calls T P limit back cs) <= length cs)%nat.
+Proof.
+  induction cs as [|b cs IH]; intros back Hp; cbn [rfb_loop_calls].
+  - destruct (limit <=? lenN back); split; constructor.
+  - destruct (N.leb_spec limit (lenN back)) as [_|Hb]; [split; [constructor|cbn; lia]|].
+    inversion Hp as [|b' cs' Hb1 Hcs]; subst.
+    destruct (r_is_nil b); [split; [constructor|cbn; lia]|].
+    destruct (IH (back ++ b) Hcs) as [IH1 IH2].
+    split.
+    + constructor; [rewrite lenN_app; lia|]. destruct (P (back ++ b)); [constructor|exact IH1|constructor].
+    + cbn [length]. destruct (P (back ++ b)); cbn [length]; lia.
+Qed.
+
+Theorem rfb_calls_bounded : forall cs,
+  Forall (fun c => lenN c <= maxpiece) cs ->
+  Forall (fun n => n < limit + maxpiece \/ n <= maxpiece) (rfb_calls T P limit cs) /\
+  (length (rfb_calls T P limit cs) <= length cs)%nat.
+Proof.
+  intros [|c cs] Hp; cbn [rfb_calls]; [split; constructor|].
+  inversion Hp as [|c' cs' Hc Hcs]; subst.
+  destruct (r_is_nil c); [split; [constructor|cbn; lia]|].
+  destruct (loop_calls_bounded cs c Hcs) as [L1 L2].
+  split.
+  - constructor; [right; exact Hc|]. destruct (P c); [constructor| |constructor].
+    eapply Forall_impl; [|exact L1]. intros n Hn. left. exact Hn.
+  - cbn [length]. destruct (P c); cbn [length]; lia.
+Qed.
+End Cost.
+
 (* ---- the one-line parser of the correspondence check meets the contract ---- *)
 Lemma find_lf_lt x k : find_lf x = Some k -> k < lenN x.
 Proof.
